@@ -432,6 +432,8 @@ def check_dict_typing(run: Run, ctx, m, tt, rule: str) -> None:
             if not pol:
                 continue
             for x in ast.walk(a):
+                if isinstance(x, ast.Call) and _under_any(x, a):
+                    continue  # true of *some* key only: establishes nothing about the keys handed to make_dataclass
                 if isinstance(x, ast.Call) and isinstance(x.func, ast.Attribute) and x.func.attr == "isidentifier" and not _under_not(x, a):
                     ident = True
                 if isinstance(x, ast.Call) and ast.unparse(x.func).split(".")[-1] == "iskeyword" and _under_not(x, a):
@@ -477,6 +479,18 @@ def check_dict_typing(run: Run, ctx, m, tt, rule: str) -> None:
         run.check(kw, rule, vd, stmt_of(c), "make_dataclass only when no key is a Python keyword", "make_dataclass is fed keys that may be Python keywords: {'class': ..} / {'pass': ..} raises TypeError ('Field names must not be keywords') - an internal error for a valid expression")
         run.check(uniq, rule, vd, stmt_of(c), "make_dataclass only when keys are unique", "make_dataclass is fed possibly repeated keys (TypeError: field name duplicated)")
         run.check(not extra, rule, vd, stmt_of(c), "a dictionary literal is typed whenever its keys can be dataclass fields", f"a dictionary literal is typed only when, in addition, every key satisfies {' and '.join(extra)}: dictionaries with other perfectly good field names (e.g. 'type', 'match') stay untyped, so calls reached through their fields are neither normalised nor followed", "isinstance(n, str) and n.isidentifier() and not keyword.iskeyword(n)", key="dictionary typing has an undesigned condition on the keys")
+
+
+def _under_any(x: ast.AST, root: ast.AST) -> bool:
+    """x is evaluated per element inside any(..) / a loop-free existential: it holds for some element, not for all"""
+    from ..model import ancestors
+
+    for a in ancestors(x):
+        if isinstance(a, ast.Call) and isinstance(a.func, ast.Name) and a.func.id == "any" and a is not x:
+            return True
+        if a is root:
+            break
+    return False
 
 
 def _under_not_in(x: ast.AST, root: ast.AST) -> bool:
